@@ -106,3 +106,29 @@ func VerifRuleRunConfig(nc *nats.Conn, cfg Rule, nodeID string, pts data.Points)
 	err := <-done
 	return rc.config, err
 }
+
+// VerifRuleSession keeps ONE rule client across several calls, so that
+// whatever the client remembers between batches (besides its configuration)
+// takes part: Process hands a batch to ruleProcessPoints of that client,
+// SetConfig leaves in the client the configuration an edit of the rule has
+// produced (what the configuration path of Run stores with data.MergePoints).
+type VerifRuleSession struct {
+	rc *RuleClient
+}
+
+// NewVerifRuleSession creates the client of a session, configured with cfg.
+func NewVerifRuleSession(nc *nats.Conn, cfg Rule) *VerifRuleSession {
+	return &VerifRuleSession{rc: NewRuleClient(nc, verifCopyRule(cfg)).(*RuleClient)}
+}
+
+// SetConfig replaces the configuration of the session's client.
+func (s *VerifRuleSession) SetConfig(cfg Rule) {
+	s.rc.config = verifCopyRule(cfg)
+}
+
+// Process runs one batch through ruleProcessPoints of the session's client and
+// returns a copy of its configuration afterwards and the results.
+func (s *VerifRuleSession) Process(nodeID string, pts data.Points) (Rule, bool, bool, error) {
+	active, changed, err := s.rc.ruleProcessPoints(nodeID, pts)
+	return verifCopyRule(s.rc.config), active, changed, err
+}
